@@ -466,17 +466,18 @@ pub fn check_state(obj: &Object, m: &Model) -> Result<StateStats, String> {
 			// every way of consuming the lookup iterators must agree (nth, skip, step_by, count, last, size_hint)
 			queries += crate::monitor::check_iter(&format!("indexes_of({:?})", k), &|| obj.indexes_of(k), &pos)?;
 			let ptrs: Vec<usize> = pos.iter().map(|&i| &obj.entries()[i].value as *const Value as usize).collect();
-			queries += crate::monitor::check_iter(&format!("get({:?})", k), &|| obj.get(k).map(|v| v as *const Value as usize), &ptrs)?;
+			queries += crate::monitor::check_iter_by(&format!("get({:?})", k), &|| obj.get(k), &|v: &Value| v as *const Value as usize, &ptrs)?;
 			let withidx: Vec<(usize, usize)> = pos.iter().map(|&i| (i, &obj.entries()[i] as *const Entry as usize)).collect();
-			queries += crate::monitor::check_iter(
+			queries += crate::monitor::check_iter_by(
 				&format!("get_entries_with_index({:?})", k),
-				&|| obj.get_entries_with_index(k).map(|(i, e)| (i, e as *const Entry as usize)),
+				&|| obj.get_entries_with_index(k),
+				&|(i, e): (usize, &Entry)| (i, e as *const Entry as usize),
 				&withidx,
 			)?;
 			let eptrs: Vec<usize> = withidx.iter().map(|x| x.1).collect();
-			queries += crate::monitor::check_iter(&format!("get_entries({:?})", k), &|| obj.get_entries(k).map(|e| e as *const Entry as usize), &eptrs)?;
+			queries += crate::monitor::check_iter_by(&format!("get_entries({:?})", k), &|| obj.get_entries(k), &|e: &Entry| e as *const Entry as usize, &eptrs)?;
 			let vwi: Vec<(usize, usize)> = pos.iter().zip(&ptrs).map(|(i, p)| (*i, *p)).collect();
-			queries += crate::monitor::check_iter(&format!("get_with_index({:?})", k), &|| obj.get_with_index(k).map(|(i, v)| (i, v as *const Value as usize)), &vwi)?;
+			queries += crate::monitor::check_iter_by(&format!("get_with_index({:?})", k), &|| obj.get_with_index(k), &|(i, v): (usize, &Value)| (i, v as *const Value as usize), &vwi)?;
 		}
 		match (scan.len(), obj.get_unique(k)) {
 			(0, Ok(None)) => (),
